@@ -1,4 +1,6 @@
 import UtilModel.Routine.Proofs
+import UtilModel.Routine.ProofsC05
+import UtilModel.Routine.ProofsC14
 import UtilModel.Routine.Monitors
 /-!
 # routine: property theorems (C04, C05, C14)
@@ -113,5 +115,316 @@ theorem waitReturn_after_all (es1 es2 : List Ev) (a : Nat) (s1 s2 s3 : St) (p : 
       rw [isClosed_proj] at this; exact this
     · have : j = p := by omega
       subst this; exact hcl
+
+/-- the hypothesis of the partial theorems is satisfiable by a non-trivial run: two restarts inside the exit
+latency of instance 0 (the D2 pattern), the instances hand over one after the other -/
+example : SafeRun model.init
+    [.cfg {}, .inv 0 (.setContext 1 false), .cs 0, .inv 1 (.setRoutine 1), .cs 1, .cbin 0 0 1 0 1,
+     .inv 2 .restart, .cs 2, .inv 3 .restart, .cs 3, .cbout 0 (some 0), .closeExit 0, .giveUp 1, .drained 1,
+     .closeExit 1, .cbin 1 2 1 0 1] :=
+  safeRun_of_bool _ _ (by decide)
+
+/-! ## C05 — superseded instances are cancelled; the survivor is current -/
+
+/-- **C05, first sentence** (`superseded_cancelled`): in every reachable state — in particular right after the
+critical section of any SetRoutine / SetState / RestartRoutine / SetContext / ClearContext, whatever other calls
+run concurrently — every instance that is not the current instance of the container's current record has a
+cancelled context. -/
+theorem superseded_cancelled (es : List Ev) (s : St) (hr : model.run model.init es = some s)
+    (n : Nat) (x : Inst) (hx : s.insts[n]? = some x) (hne : curInst s ≠ some n) :
+    s.isCancelled x = true :=
+  (cur_run model.init s es cur_init good_init.recs hr).1.sc n x hx hne
+
+/-- **C05, second sentence** (`quiescent_survivor`): in every reachable state (hence in every quiescent one) an
+instance with a live context is the current instance of the container's current record — so there is at most one
+(`survivor_unique`) — the container has a context, which is the one the instance derives from, and a routine, and
+the instance was started for that record. -/
+theorem quiescent_survivor (es : List Ev) (s : St) (hr : model.run model.init es = some s)
+    (n : Nat) (x : Inst) (hx : s.insts[n]? = some x) (hlive : s.isCancelled x = false) :
+    curInst s = some n ∧ x.root = s.ctx ∧ s.ctx ≠ 0 ∧
+    ∃ r y, s.routine = some r ∧ s.recs[r]? = some y ∧ y.rctx = some n ∧ x.rid = r := by
+  have hc := cur_run model.init s es cur_init good_init.recs hr
+  have ha := allRec_run model.init s es good_init.recs hr
+  have hcur : curInst s = some n := by
+    cases h : decide (curInst s = some n) with
+    | true => simpa using h
+    | false =>
+      have : curInst s ≠ some n := by simpa using h
+      have := hc.1.sc n x hx this
+      rw [this] at hlive; cases hlive
+  have hk := hc.2 n x hcur hx hlive
+  refine ⟨hcur, hk.1, hk.2, ?_⟩
+  cases hrt : s.routine with
+  | none => simp [curInst, curRec, hrt] at hcur
+  | some r =>
+    cases hy : s.recs[r]? with
+    | none => simp [curInst, curRec, hrt, hy] at hcur
+    | some y =>
+      have hrc : y.rctx = some n := by simpa [curInst, curRec, hrt, hy] using hcur
+      obtain ⟨z, hz, hzr⟩ := (ha r y hy).k5 n hrc
+      rw [hx] at hz; cases hz
+      exact ⟨r, y, rfl, hy, hrc, hzr⟩
+
+theorem survivor_unique (es : List Ev) (s : St) (hr : model.run model.init es = some s)
+    (n m : Nat) (x y : Inst) (hx : s.insts[n]? = some x) (hy : s.insts[m]? = some y)
+    (h1 : s.isCancelled x = false) (h2 : s.isCancelled y = false) : n = m := by
+  have a := (quiescent_survivor es s hr n x hx h1).1
+  have b := (quiescent_survivor es s hr m y hy h2).1
+  rw [a] at b; exact Option.some.inj b
+
+/-! ## C14 — exit status, restart rules, backoff -/
+
+/-- which events can create a new instance while the same record stays current (core of both restart rules) -/
+theorem rerun_only_by (s s' : St) (e : Ev) (r : Nat) (y : Rec)
+    (hs : model.step s e = some s') (hr : s.routine = some r) (hy : s.recs[r]? = some y)
+    (hnew : s.insts.length < s'.insts.length) (hr' : s'.routine = some r) :
+    (∃ t, e = .timerCS t) ∨
+    (∃ a c, e = .cs a ∧ s.calls[a]? = some c ∧
+      (c.op = .restart ∨
+       (∃ ctx rst, c.op = .setContext ctx rst ∧ y.success = false ∧ (rst = true ∨ y.err = none)))) :=
+  rerun_cause s s' e r y hs hr hy hnew hr'
+
+/-- **C14 `error_rerun_only_by`**: a record whose last run returned an error gets a new instance only in the
+critical section of RestartRoutine, of SetContext with restart = true, or of the retry timer (setting a new
+routine / state makes another record current). For every state, every event. -/
+theorem error_rerun_only_by (s s' : St) (e : Ev) (r : Nat) (y : Rec)
+    (hs : model.step s e = some s') (hr : s.routine = some r) (hy : s.recs[r]? = some y)
+    (herr : y.err ≠ none)
+    (hnew : s.insts.length < s'.insts.length) (hr' : s'.routine = some r) :
+    (∃ t, e = .timerCS t) ∨
+    (∃ a c, e = .cs a ∧ s.calls[a]? = some c ∧ (c.op = .restart ∨ ∃ ctx, c.op = .setContext ctx true)) := by
+  rcases rerun_cause s s' e r y hs hr hy hnew hr' with h | ⟨a, c, h1, h2, h3⟩
+  · exact Or.inl h
+  · right
+    refine ⟨a, c, h1, h2, ?_⟩
+    rcases h3 with h3 | ⟨ctx, rst, h4, _, h6⟩
+    · exact Or.inl h3
+    · rcases h6 with h6 | h6
+      · subst h6; exact Or.inr ⟨ctx, h4⟩
+      · exact absurd h6 herr
+
+/-- **C14 `success_not_rerun`, full statement**: a record whose last run returned nil gets a new instance only in
+the critical section of RestartRoutine. *False for the code as it is* (finding D17: a retry timer that fired
+before `stop()` still restarts the routine), see `success_not_rerun_full_false`. -/
+def success_not_rerun_full : Prop :=
+  ∀ (es : List Ev) (s s' : St) (e : Ev) (r : Nat) (y : Rec), model.run model.init es = some s →
+    model.step s e = some s' → s.routine = some r → s.recs[r]? = some y → y.success = true →
+    s.insts.length < s'.insts.length → s'.routine = some r →
+    ∃ a c, e = .cs a ∧ s.calls[a]? = some c ∧ c.op = .restart
+
+/-- **`success_not_rerun_partial`**: … only in the critical section of RestartRoutine *or of a retry timer*
+(which, the record having succeeded, can only be a stale one: D17). SetContext — with or without restart —, the
+instance steps, exits and callbacks never re-run a successful routine. -/
+theorem success_not_rerun_partial (s s' : St) (e : Ev) (r : Nat) (y : Rec)
+    (hs : model.step s e = some s') (hr : s.routine = some r) (hy : s.recs[r]? = some y)
+    (hsucc : y.success = true)
+    (hnew : s.insts.length < s'.insts.length) (hr' : s'.routine = some r) :
+    (∃ t, e = .timerCS t) ∨ (∃ a c, e = .cs a ∧ s.calls[a]? = some c ∧ c.op = .restart) := by
+  rcases rerun_cause s s' e r y hs hr hy hnew hr' with h | ⟨a, c, h1, h2, h3⟩
+  · exact Or.inl h
+  · right
+    refine ⟨a, c, h1, h2, ?_⟩
+    rcases h3 with h3 | ⟨_, _, _, h5, _⟩
+    · exact h3
+    · rw [hsucc] at h5; cases h5
+
+/-- D17 witness: error, retry timer fires (callback waiting for the lock), RestartRoutine, the new instance
+succeeds and is recorded, then the stale callback runs -/
+def d17Prefix : List Ev :=
+  [.cfg { retry := true }, .inv 0 (.setContext 1 false), .cs 0, .inv 1 (.setRoutine 1), .cs 1,
+   .cbin 0 0 1 0 1, .cbout 0 (some 1), .closeExit 0, .record 0 true, .emit (.bo .dur), .fire 0,
+   .inv 2 .restart, .cs 2, .cbin 1 1 1 0 1, .cbout 1 none, .closeExit 1, .record 1 false, .emit (.bo .reset)]
+
+theorem d17_runs :
+    (model.run model.init d17Prefix).bind (fun s => (model.step s (.timerCS 0)).map fun s' =>
+      (s.routine, (s.recs[0]?).map (·.success), s.insts.length, s'.insts.length, s'.routine)) =
+    some (some 0, some true, 2, 3, some 0) := by
+  decide
+
+theorem success_not_rerun_full_false : ¬ success_not_rerun_full := by
+  intro h
+  have hw := d17_runs
+  cases hr : model.run model.init d17Prefix with
+  | none => rw [hr] at hw; cases hw
+  | some s =>
+    rw [hr] at hw
+    simp only [Option.bind_some] at hw
+    cases hst : model.step s (.timerCS 0) with
+    | none => rw [hst] at hw; cases hw
+    | some s' =>
+      rw [hst] at hw
+      simp only [Option.map_some, Option.some.injEq, Prod.mk.injEq] at hw
+      obtain ⟨w1, w2, w3, w4, w5⟩ := hw
+      cases hy : s.recs[0]? with
+      | none => rw [hy] at w2; cases w2
+      | some y =>
+        rw [hy] at w2
+        have hsucc : y.success = true := by simpa using w2
+        obtain ⟨a, c, he, _⟩ := h d17Prefix s s' (.timerCS 0) 0 y hr hst w1 hy hsucc (by omega) w5
+        cases he
+
+/-- **C14 `retry_armed` / backoff**: the final critical section of an instance that is current for its record
+and for the container, with a backoff configured: a success calls `Reset()`; an error calls `NextBackOff()`, and
+unless that says Stop a retry timer for this record is armed and linked to the record. -/
+theorem retry_armed (s s' : St) (cf : Cfg) (n : Nat) (x : Inst) (r : Rec) (dur : Bool)
+    (hs : model.step s (.record n dur) = some s') (hcf : s.cfg = some cf) (hx : s.insts[n]? = some x)
+    (hr : s.recs[x.rid]? = some r) (hrc : r.rctx = some n) (hcur : s.routine = some x.rid)
+    (hret : cf.retry = true) :
+    (x.out = none → s'.lockq.head? = some (.bo .reset)) ∧
+    (x.out ≠ none → s'.lockq.head? = some (.bo (if dur then .dur else .stop))) ∧
+    (dur = true → ∃ t tm, (s'.recs[x.rid]?).bind (·.retry) = some t ∧ s'.timers[t]? = some tm ∧
+        tm.st = .armed ∧ tm.rid = x.rid) := by
+  simp only [model, step, stepI, hcf, hx] at hs
+  split at hs
+  · simp only [recordCS, hr, hrc, if_true, hcur, hret] at hs
+    split at hs
+    · cases hs
+    · simp only [Option.some.injEq] at hs; subst hs
+      have hrlt := get_lt hr
+      refine ⟨?_, ?_, ?_⟩
+      · intro ho; simp [boLines, hret, ho, St.bcastNow]
+      · intro ho
+        have : x.out.isNone = false := by cases h : x.out with
+          | none => exact absurd h ho
+          | some _ => rfl
+        simp [boLines, hret, this, St.bcastNow]
+      · intro hd
+        subst hd
+        refine ⟨(killTimer (setInst s n { x with recorded := true }) r.retry).timers.length,
+          { rid := x.rid, st := .armed }, ?_, ?_, rfl, rfl⟩
+        · simp [St.bcastNow, setInst, hrlt]
+        · simp [St.bcastNow]
+  · cases hs
+
+/-- a retry of record `r` is pending: its timer is armed, or has fired and waits for the container lock -/
+def retryPending (s : St) (r : Nat) : Bool :=
+  match (s.recs[r]?).bind (·.retry) with
+  | some t => (match s.timers[t]? with
+               | some tm => tm.st != .dead
+               | none => false)
+  | none => false
+
+/-- **C14 retry clause, full statement** (`retry_kept_full`): a pending retry of the current record survives a
+`SetContext(ctx, restart = false)` that leaves the container with a context ("run again automatically after each
+backoff interval when retry is configured"). *False for the code as it is* (finding D14: `stop()` cancels the
+timer and `start()` is skipped because `err != nil`), see `retry_kept_full_false`. What is proved instead:
+`retry_armed` (the retry is armed and linked when the failure is recorded) and `error_rerun_only_by`. -/
+def retry_kept_full : Prop :=
+  ∀ (es : List Ev) (s s' : St) (a : Nat) (c : Call) (ctx r : Nat), model.run model.init es = some s →
+    model.step s (.cs a) = some s' → s.calls[a]? = some c → c.op = .setContext ctx false → ctx ≠ 0 →
+    s.routine = some r → retryPending s r = true → retryPending s' r = true
+
+/-- D14 witness: error recorded, retry armed, `SetContext(2, false)` -/
+def d14Prefix : List Ev :=
+  [.cfg { retry := true }, .inv 0 (.setContext 1 false), .cs 0, .inv 1 (.setRoutine 1), .cs 1,
+   .cbin 0 0 1 0 1, .cbout 0 (some 1), .closeExit 0, .record 0 true, .emit (.bo .dur),
+   .inv 2 (.setContext 2 false)]
+
+theorem d14_runs :
+    (model.run model.init d14Prefix).bind (fun s => (model.step s (.cs 2)).map fun s' =>
+      (s.routine, (s.calls[2]?).map (·.op), retryPending s 0, retryPending s' 0, s'.ctx,
+       (s'.recs[0]?).map (fun y => (y.exited, y.err)), s'.insts.length)) =
+    some (some 0, some (.setContext 2 false), true, false, 2, some (true, some 1), 1) := by
+  decide
+
+theorem retry_kept_full_false : ¬ retry_kept_full := by
+  intro h
+  have hw := d14_runs
+  cases hr : model.run model.init d14Prefix with
+  | none => rw [hr] at hw; cases hw
+  | some s =>
+    rw [hr] at hw
+    simp only [Option.bind_some] at hw
+    cases hst : model.step s (.cs 2) with
+    | none => rw [hst] at hw; cases hw
+    | some s' =>
+      rw [hst] at hw
+      simp only [Option.map_some, Option.some.injEq, Prod.mk.injEq] at hw
+      obtain ⟨w1, w2, w3, w4, _⟩ := hw
+      cases hc : s.calls[2]? with
+      | none => rw [hc] at w2; cases w2
+      | some c =>
+        rw [hc] at w2
+        have hop : c.op = .setContext 2 false := by simpa using w2
+        have := h d14Prefix s s' 2 c 2 0 hr hst hc hop (by decide) w1 w3
+        rw [w4] at this; cases this
+
+/-- **C14 `exit_cb_once`**: the final critical section of an instance that is current for its record reports the
+exit to every exit callback exactly once, in order, with the instance's result (after the backoff call, if any);
+`record_once`: it runs at most once per instance. -/
+theorem exit_cb_once (s s' : St) (cf : Cfg) (n : Nat) (x : Inst) (r : Rec) (dur : Bool)
+    (hs : model.step s (.record n dur) = some s') (hcf : s.cfg = some cf) (hx : s.insts[n]? = some x)
+    (hr : s.recs[x.rid]? = some r) (hrc : r.rctx = some n) :
+    s'.lockq = boLines cf x.out.isNone (s.routine == some x.rid) dur ++
+      (List.range cf.ncb).map (fun j => Obs.exitcb j x.out) := by
+  simp only [model, step, stepI, hcf, hx] at hs
+  split at hs
+  · simp only [recordCS, hr, hrc, if_true] at hs
+    split at hs
+    · cases hs
+    · simp only [Option.some.injEq] at hs; subst hs
+      simp [St.bcastNow, cbLines]
+  · cases hs
+
+theorem record_once (s s' : St) (n : Nat) (dur : Bool) (hs : model.step s (.record n dur) = some s') :
+    (∃ x, s.insts[n]? = some x ∧ x.recorded = false) ∧ (∃ x', s'.insts[n]? = some x' ∧ x'.recorded = true) := by
+  simp only [model, step, stepI] at hs
+  split at hs
+  · rename_i cf x hcf hx
+    split at hs
+    · rename_i hg
+      refine ⟨⟨x, hx, hg.2.1⟩, ?_⟩
+      have hlt := get_lt hx
+      simp only [recordCS] at hs
+      split at hs
+      · cases hs
+      · split at hs
+        · split at hs
+          · cases hs
+          · simp only [Option.some.injEq] at hs; subst hs
+            refine ⟨{ x with recorded := true }, ?_, rfl⟩
+            simp only [bcastNow_insts]
+            split <;> simp [setInst, hlt]
+        · split at hs
+          · cases hs
+          · simp only [Option.some.injEq] at hs; subst hs
+            exact ⟨{ x with recorded := true }, by simp [setInst, hlt], rfl⟩
+    · cases hs
+  · cases hs
+
+/-- **C14 `waitExited_current`** (sample section): `WaitExited` returns only what its sample section reads from the
+container's *current* record while a context is set: the recorded error of a record that has exited (nil for a
+success) — or nil when asked to return if nothing is running. A record replaced by SetRoutine/SetState is never
+consulted; `start()` clears `exited`, so neither is a superseded instance of the same record. -/
+theorem waitExited_current (s : St) (rinr : Bool) (e : Option Nat)
+    (h : (waitSample s rinr).2 = .done (.wx e)) :
+    (∃ r y, (normCtx s).routine = some r ∧ (normCtx s).recs[r]? = some y ∧ (normCtx s).ctx ≠ 0 ∧
+        (y.exited = true ∨ y.success = true) ∧ e = y.err) ∨
+    (rinr = true ∧ e = none) := by
+  simp only [waitSample] at h
+  cases hrt : (normCtx s).routine with
+  | none =>
+    simp only [hrt] at h
+    cases rinr <;> simp at h
+    exact Or.inr ⟨rfl, h.symm⟩
+  | some r =>
+    cases hy : (normCtx s).recs[r]? with
+    | none =>
+      simp only [hrt, hy] at h
+      cases rinr <;> simp at h
+      exact Or.inr ⟨rfl, h.symm⟩
+    | some y =>
+      simp only [hrt, hy] at h
+      by_cases hc : ((normCtx s).ctx != 0) = true
+      · simp only [hc, if_true] at h
+        by_cases hex : (y.exited || y.success) = true
+        · simp only [hex, if_true] at h
+          left
+          refine ⟨r, y, rfl, hy, by simpa using hc, by simpa using hex, ?_⟩
+          simpa using h.symm
+        · simp [hex] at h
+      · simp only [hc] at h
+        cases rinr <;> simp at h
+        exact Or.inr ⟨rfl, h.symm⟩
 
 end UtilModel.Routine
